@@ -70,9 +70,11 @@ theorem walk_not_fuel (pol : Nat) (sb : Bytes) :
         obtain ⟨h10, hle⟩ := newNVar_size _ _ _ _ _ _ _ _ he
         have hsl : (slice sb fso (gso - fso)).length ≤ gso - fso := by
           simp only [slice, List.length_take]; omega
-        apply ih
-        · omega
-        · omega
+        split
+        · intro h; cases h
+        · apply ih
+          · omega
+          · omega
     · intro h; cases h
 
 /-- `NewNVarStore` (repaired) terminates on every input: the model's walk never runs out of fuel -/
